@@ -58,7 +58,8 @@ SnapGridOK(S, X0, X1, R, O, tn, td, o) ==
       lo == IF R > 0 THEN tx ELSE tx - nx * aR hi == lo + nx * aR x0 == X0 * S x1 == X1 * S IN
   IF nx < 1 THEN "no_pixels"
   ELSE IF ~((x0 - lo) * td >= -(tn * aR) /\ (hi - x1) * td >= -(tn * aR)) THEN "span_does_not_cover_interval_up_to_tolerance"
-  ELSE IF nx > 1 /\ ~((x0 - lo) * td < (td + tn) * aR /\ (hi - x1) * td < (td + tn) * aR) THEN "span_not_minimal"
+  \* minimal: with one pixel less on either side the span would no longer cover the interval up to the tolerance
+  ELSE IF nx > 1 /\ ~((x0 - lo) * td < (td - tn) * aR /\ (hi - x1) * td < (td - tn) * aR) THEN "span_not_minimal"
   ELSE IF O # -1 /\ (lo - O * Abs(R)) % aR # 0 THEN "not_aligned_to_requested_pixel_fraction"
   ELSE "ok"
 
